@@ -39,6 +39,12 @@ FIXED = [
     "register q[2]\nmap a q[0:3:0]\nprepare_all\nX a[0]\nmeasure_all\n", "register q[2]\nsubcircuit { subcircuit { X q[0] } }\n",
     "register q[2]\n< subcircuit { X q[0] } >\n", "register q[2]\nbranch { '0' : { X q[0] } }\n", "register q[1.5]\n", "let x 1.5\nregister q[x]\nprepare_all\nmeasure_all\n",
     "register q[2]\nprepare_all\nloop 1.5 { X q[0] }\nmeasure_all\n", "let c 0.5\nregister q[2]\nprepare_all\nloop c { X q[0] }\nmeasure_all\n",
+    # an identifier of the wrong kind where a number must stand, also through an untyped macro parameter
+    "register q[2]\nmap a q[q:2:2]\nprepare_all\nmeasure_all\n", "register q[3]\nmap a q[0:q]\n", "register q[2]\nmap s q[1]\nmap a q[0:s]\n",
+    "register q[2]\nprepare_all\nloop q {\nX q[0]\n}\nmeasure_all\n", "register q[2]\nmap s q[1]\nprepare_all\nloop s {\nX q[0]\n}\nmeasure_all\n",
+    "register q[2]\nsubcircuit q {\nX q[0]\n}\n", "register q[2]\nmacro m t {\nRx q[0] t\n}\nprepare_all\nm q[1]\nmeasure_all\n",
+    "register q[2]\nmacro m0 x t {\nRx x t\n}\nmacro m1 t x {\nm0 q[0] t\n}\nprepare_all\nm1 q[1] 1.5\nmeasure_all\n",
+    "register q[2]\nmacro m n {\nloop n {\nX q[0]\n}\n}\nprepare_all\nm q\nmeasure_all\n", "register q[2]\nmacro m x {\nX x\n}\nprepare_all\nm 1.5\nmeasure_all\n",
     # numeric literals at the edge of the float range, wherever a number may stand
     "let big 1e999\nregister q[2]\nprepare_all\nmeasure_all\n", "let x -1e400\nregister q[2]\nprepare_all\nRx q[0] x\nmeasure_all\n",
     "let big 1e999\nregister q[big]\n", "register q[2]\nprepare_all\nloop 1e999 { X q[0] }\nmeasure_all\n", "let n 1e999\nregister q[2]\nprepare_all\nloop n { X q[0] }\nmeasure_all\n",
